@@ -118,6 +118,63 @@ func onFresh(f func()) {
 	<-done
 }
 
+// dataErrReader reports the end of the stream in the same Read call that delivers the last bytes.
+type dataErrReader struct{ c *countingReader }
+
+func (d *dataErrReader) Read(p []byte) (int, error) {
+	n, err := d.c.Read(p)
+	if err == nil && d.c.pos >= len(d.c.data) {
+		return n, io.EOF
+	}
+	return n, err
+}
+
+// poolReader is an entropy pool seen through a buffered type: Len() reports what is buffered right now (at most 16
+// bytes), a Read hands out at most that much, and the pool refills between calls. All of it is legal for an io.Reader.
+type poolReader struct{ c *countingReader }
+
+func (p poolReader) Len() int {
+	if rem := len(p.c.data) - p.c.pos; rem < 16 {
+		return rem
+	}
+	return 16
+}
+
+func (p poolReader) Read(b []byte) (int, error) {
+	if len(b) > 16 {
+		b = b[:16]
+	}
+	return p.c.Read(b)
+}
+
+// zeroRunReader delivers n zero bytes and then tail, without holding them in memory.
+type zeroRunReader struct {
+	n    int
+	tail []byte
+	pos  int
+}
+
+func (z *zeroRunReader) Read(b []byte) (int, error) {
+	if z.pos < z.n {
+		k := len(b)
+		if k > z.n-z.pos {
+			k = z.n - z.pos
+		}
+		for i := 0; i < k; i++ {
+			b[i] = 0
+		}
+		z.pos += k
+		return k, nil
+	}
+	off := z.pos - z.n
+	if off >= len(z.tail) {
+		return 0, io.EOF
+	}
+	k := copy(b, z.tail[off:])
+	z.pos += k
+	return k, nil
+}
+
 func stream(cands ...[]byte) *countingReader {
 	return &countingReader{data: bytes.Join(cands, nil)}
 }
